@@ -5,12 +5,13 @@ import itertools
 import math
 from fractions import Fraction
 
+from . import c02_sites as S
 from . import c02_util as U
 from .common import add_failure, bump, new_outcome, unrat
 
 PROP = "C02"
-PROPS_FILES = ["CogentModel/Props/C02.lean"]
-LEAN_TARGETS = ["CogentModel.Props.C02"]
+PROPS_FILES = ["CogentModel/Props/C02.lean", "CogentModel/Props/C02Sites.lean"]
+LEAN_TARGETS = ["CogentModel.Props.C02", "CogentModel.Props.C02Sites"]
 DRIVER = "drv_c02"
 TRUSTED = [
     "hand-written model lean/CogentModel/Model/Prune.lean of the pruning recursion, bin mixture and _indexed column "
@@ -20,12 +21,17 @@ TRUSTED = [
     "spec: CogentModel.Prune.bruteForce (sum over all labelings), evaluated by the same driver on the same inputs",
     "IUPAC ambiguity tables written into harness/c02_util.py (independent of cogent3.core.moltype)",
     "scipy.linalg.expm as the independent matrix exponential for P = exp(Qt)",
+    "hand-written model lean/CogentModel/Model/PruneSites.lean of SumDefn over loci, PatchSiteDistribution, "
+    "SiteClassTransitionMatrix and the loop of log_dot_reduce (mirrored as written); tied on the real per-bin likelihood "
+    "arrays / root index / PatchSiteDistribution attributes of sites_independent=False likelihood functions",
+    "the harness's own reading of the site-class HMM definition at the level of the bins (harness/c02_sites.py hmm_definition)",
 ]
 ASSUMPTIONS = [
     "float rounding / underflow of the numba kernels is bounded by the stated tolerances, not modelled",
     "the rate matrix Q itself (predicates, calibration) is C05's concern; here P is checked against scipy expm(Q t) only",
     "log is uninterpreted in the theorems (any function into an additive commutative monoid)",
     "calculation-graph caching is C07's concern: every likelihood function is evaluated once, freshly built",
+    "the rescaling by 2**100 inside log_dot_reduce is not modelled (identity in exact arithmetic)",
 ]
 
 REL_LH = 1e-9
@@ -321,8 +327,10 @@ def correspondence(ctx):
         "alignments with IUPAC ambiguity and gaps, random in-bounds parameters, per-edge scopes, 1-4 rate bins; the model "
         "`prune` on the implementation's own float64 inputs and leaf arrays vs get_full_length_likelihoods / lnL / root "
         "index+counts; plus `_indexed` exhaustively on short key lists and randomly; plus the model's weightedLogSum / fullLength "
-        "vs the real numba get_log_sum_across_sites / get_full_length_likelihoods on power-of-two likelihoods; non-trivial = problems with >= 2 "
-        "unique columns (and _indexed inputs with a repeated key and >= 2 distinct keys)"
+        "vs the real numba get_log_sum_across_sites / get_full_length_likelihoods on power-of-two likelihoods; `lnLLoci` vs the real "
+        "SumDefn.calc over per-locus numba log-sums; `siteHmm` on the real per-bin likelihood arrays, root index and bin probabilities of "
+        "sites_independent=False likelihood functions (2-4 bins) vs lf.lnL and the PatchSiteDistribution attributes; non-trivial = problems with >= 2 "
+        "unique columns (and _indexed inputs with a repeated key and >= 2 distinct keys; HMM problems with >= 2 sites)"
     )
     rng = ctx.subrng("corr")
     U.BIG_BINS = ctx.thorough
@@ -336,6 +344,8 @@ def correspondence(ctx):
     for name in plan:
         specs.append(U.rand_problem(rng, name, unary=rng.random() < 0.15))
     evaluate(ctx, specs, rng, "impl", 0, out, "corr")
+    # second part: SumDefn over loci, site-class HMM (Model/PruneSites.lean)
+    S.correspondence(ctx, out, ctx.subrng("sites-corr"))
     return out
 
 
@@ -794,15 +804,23 @@ def _check_scope(ctx, spec, expect, out):
 
 
 # --------------------------------------------------------------------------
-# thorough only: one large problem (more than 2^15 distinct site patterns below one node)
+# size-scaling stream: LARGE problems, where index / count / dtype widths of the compressed likelihood tree matter
+# (more than 2^15 and more than 2^16 distinct site patterns below one child of an internal node; pattern counts
+# above 2^16).  Oracle: plain float64 pruning vectorised over ALL columns, no compression, on the implementation's
+# own psubs / root probabilities / bin probabilities; leaf profiles from the harness's IUPAC table.
+# Theorems compress_sum / full_length_expand / compressed_prune_eq hold for lists of ANY length; this stream ties them
+# to the implementation at sizes where a fixed-width index would wrap.
 # --------------------------------------------------------------------------
-def _np_prune(tree_json, Ps, pi, onehot):
-    """plain float64 pruning vectorised over columns: onehot[tip] is an (ncols, m) 0/1 array"""
+LARGE_SYMBOLS = "RYN-?"
+
+
+def _np_prune(tree_json, Ps, pi, prof):
+    """plain float64 pruning vectorised over columns: prof[tip] is an (ncols, m) 0/1 array"""
     import numpy
 
     def go(t):
         if "l" in t:
-            v = onehot[t["l"]]
+            v = prof[t["l"]]
         else:
             v = None
             for c in t["c"]:
@@ -813,62 +831,171 @@ def _np_prune(tree_json, Ps, pi, onehot):
     return go(tree_json) @ numpy.asarray(pi)
 
 
-def _large_problem(ctx, rng, out, fixed=None):
+def _large_tree(rng, ntips, kbig, shape):
+    """a tree with one clade `big` of kbig tips (so the index array some parent keeps for that child ranges over
+    the clade's distinct site patterns); the other tips hang above it.  shape of the clade: caterpillar / one
+    polytomy / random rose tree"""
+    def ln():
+        return round(rng.uniform(0.05, 0.6), 4)
+
+    tips = [dict(name=f"s{i}", len=ln(), children=[]) for i in range(ntips)]
+    rng.shuffle(tips)
+    inner, outer = tips[:kbig], tips[kbig:]
+    k = [0]
+
+    def node(children):
+        k[0] += 1
+        return dict(name=f"c{k[0]}", len=round(rng.uniform(0.05, 0.3), 4), children=children)
+
+    if shape == "caterpillar":
+        big = node([inner[0], inner[1]])
+        for t in inner[2:]:
+            big = node([big, t] if rng.random() < 0.5 else [t, big])
+    elif shape == "polytomy":
+        big = node(inner)
+    else:
+        nodes = list(inner)
+        while len(nodes) > 1:
+            g = min(rng.choice([2, 2, 3, 4]), len(nodes))
+            grp = [nodes.pop(rng.randrange(len(nodes))) for _ in range(g)]
+            nodes.append(node(grp))
+        big = nodes[0]
+    big["name"] = "big"
+    top = big
+    # the remaining tips: either all at the root next to the clade, or stacked above it
+    if len(outer) >= 2 and rng.random() < 0.5:
+        for t in outer[:-1]:
+            top = node([top, t] if rng.random() < 0.5 else [t, top])
+        outer = outer[-1:]
+    ch = [top] + outer
+    rng.shuffle(ch)
+    return dict(name="root", len=None, children=ch)
+
+
+def _rand_large(rng, target):
+    """description of one large problem (everything needed to rebuild it; the columns are regenerated from np_seed).
+    target 15 / 16: more than 2^15 / 2^16 distinct patterns in a clade; 'counts': few patterns, counts above 2^16"""
+    kinds = U.model_kinds()
+    nuc = [m for m, k in kinds.items() if k == "nucleotide" and m not in U.DISCRETE]
+    name = rng.choice(nuc)
+    if target == "counts":
+        ntips = rng.randint(3, 5)
+        tree = U.rand_tree(rng, ntips, root_deg=rng.choice([2, 3]), zero_ok=False)
+
+        def relen(n):
+            for c in n["children"]:
+                c["len"] = round(rng.uniform(0.05, 0.6), 4)
+                relen(c)
+
+        relen(tree)
+        ncols = rng.choice([120000, 150000, 200000])
+        const_frac = rng.choice([0.6, 0.75, 0.9])
+    else:
+        # distinct patterns among n random columns over N = 4^k possibilities: N (1 - exp(-n / N))
+        if target == 15:
+            ntips, ncols = rng.choice([10, 11]), rng.choice([42000, 50000, 60000])
+            kbig = rng.randint(9, ntips - 1)
+        else:
+            ntips, ncols = rng.choice([11, 12]), rng.choice([76000, 84000, 90000])
+            kbig = rng.randint(10, ntips - 1)
+        tree = _large_tree(rng, ntips, kbig, rng.choice(["caterpillar", "polytomy", "rose"]))
+        const_frac = 0.0
+    motifs = [str(m) for m in U.get_sm(name).get_alphabet()]
+    bins = rng.choice([1, 1, 2])
+    return dict(model=name, target=target, ntips=ntips, ncols=ncols, tree=tree, mprobs=U.rand_mprobs(rng, motifs),
+                np_seed=rng.randrange(1 << 30), new_type=bool(rng.random() < 0.5), sub_seed=rng.randrange(1 << 30),
+                bins=bins, model_kw=dict(ordered_param="rate", distribution="gamma") if bins > 1 else {},
+                ambig=rng.choice([0.0, 0.0, 0.01]), const_frac=const_frac, rules=None, rules_seed=rng.randrange(1 << 30))
+
+
+def _large_columns(fixed, tips):
+    """(symbols, codes[ntips, ncols]) of the problem, from numpy's generator seeded by np_seed"""
+    import numpy
+
+    motifs = [str(m) for m in U.get_sm(fixed["model"]).get_alphabet()]
+    symbols = motifs + list(LARGE_SYMBOLS)
+    g = numpy.random.default_rng(fixed["np_seed"])
+    ntips, ncols = len(tips), fixed["ncols"]
+    codes = g.integers(0, 4, size=(ntips, ncols))
+    if fixed["const_frac"] > 0:
+        # a few patterns carry almost all the weight: constant columns of one state
+        const = g.random(ncols) < fixed["const_frac"]
+        codes[:, const] = g.integers(0, 4)
+    if fixed["ambig"] > 0:
+        hit = g.random((ntips, ncols)) < fixed["ambig"]
+        codes[hit] = g.integers(4, len(symbols), size=int(hit.sum()))
+    return symbols, codes
+
+
+def _large_problem(ctx, rng, out, fixed=None, target=15):
+    import random as _random
+
     import numpy
 
     if fixed is None:
-        name = rng.choice(["HKY85", "GTR", "F81"])
-        ntips = rng.choice([10, 11, 12])
-        ncols = rng.choice([60000, 80000])
-        # caterpillar: the deepest internal nodes carry almost all tips
-        tips = [dict(name=f"s{i}", len=round(rng.uniform(0.05, 0.6), 4), children=[]) for i in range(ntips)]
-        node = dict(name="c0", len=round(rng.uniform(0.05, 0.3), 4), children=[tips[0], tips[1]])
-        for k in range(2, ntips - 1):
-            node = dict(name=f"c{k - 1}", len=round(rng.uniform(0.05, 0.3), 4), children=[node, tips[k]])
-        tree = dict(name="root", len=None, children=[node, tips[-1]])
-        motifs = [str(m) for m in U.get_sm(name).get_alphabet()]
-        fixed = dict(model=name, ntips=ntips, ncols=ncols, tree=tree, mprobs=U.rand_mprobs(rng, motifs), np_seed=rng.randrange(1 << 30),
-                     new_type=bool(rng.random() < 0.5), sub_seed=rng.randrange(1 << 30))
-    name, ntips, ncols, tree = fixed["model"], fixed["ntips"], fixed["ncols"], fixed["tree"]
-    motifs = [str(m) for m in U.get_sm(name).get_alphabet()]
-    nprng = numpy.random.default_rng(fixed["np_seed"])
-    codes = nprng.integers(0, 4, size=(ntips, ncols))
-    seqs = {f"s{i}": "".join(numpy.array(motifs)[codes[i]]) for i in range(ntips)}
+        fixed = _rand_large(rng, target)
+    name, tree = fixed["model"], fixed["tree"]
+    tipnames = sorted(U.tree_tips(tree))
+    symbols, codes = _large_columns(fixed, tipnames)
+    symarr = numpy.array(symbols)
+    seqs = {t: "".join(symarr[codes[i]]) for i, t in enumerate(tipnames)}
     spec = dict(model=name, kind="nucleotide", newick=U.newick(tree), tree=tree, seqs=seqs, moltype="dna", new_type=fixed["new_type"],
-                mprobs=fixed["mprobs"], rules=[], bins=1, model_kw={}, scoped=False, seed=fixed["np_seed"])
-    inp = dict(fixed, kind="nucleotide", newick=spec["newick"], check="large",
-               note="sequences: numpy.random.default_rng(np_seed).integers(0, 4, (ntips, ncols)) indexing the model's motif order")
-    rng = __import__("random").Random(fixed["sub_seed"])
+                mprobs=fixed["mprobs"], rules=fixed["rules"] or [], bins=fixed["bins"], model_kw=fixed["model_kw"], scoped=False,
+                seed=fixed["np_seed"])
     try:
-        lf = U.build_lf(spec, None)
+        lf = U.build_lf(spec, _random.Random(fixed["rules_seed"]) if fixed["rules"] is None else None)
         got = float(lf.lnL)
         fl = numpy.array(lf.get_full_length_likelihoods(), dtype=float)
     except Exception as e:
-        add_failure(out, "spec", "large alignment: likelihood function construction / evaluation raised", inp, "a likelihood",
+        add_failure(out, "spec", "large alignment: likelihood function construction / evaluation raised",
+                    dict(fixed, kind="nucleotide", check="large"), "a likelihood",
                     f"{type(e).__name__}: {e}", sig=f"large-raised:{type(e).__name__}")
         return
+    fixed = dict(fixed, rules=spec["rules"])
+    inp = dict(fixed, kind="nucleotide", newick=spec["newick"], check="large",
+               note="sequences: harness.c02._large_columns(input, sorted tip names) - numpy.random.default_rng(np_seed); "
+                    "replay with ./check C02 --replay <this file>")
     small = dict(spec, seqs={k: v[:4] for k, v in seqs.items()})
-    ex = U.extract(lf, small, profiles="oracle")  # tree, edges, P, pi (columns are handled below)
-    tipidx = {t: i for i, t in enumerate(ex["tips"])}
-    onehot = {tipidx[f"s{i}"]: numpy.eye(4)[codes[i]] for i in range(ntips)}
-    lhs = _np_prune(ex["tree"], ex["bins"][0]["P"], ex["bins"][0]["pi"], onehot)
+    ex = U.extract(lf, small, profiles="oracle")  # tree, edges, P, pi, bprobs (the columns are handled here)
+    motifs = ex["motifs"]
+    table = numpy.array([[1.0 if m in U.IUPAC_DNA[s] else 0.0 for m in motifs] for s in symbols])
+    row = {t: i for i, t in enumerate(tipnames)}
+    prof = {k: table[codes[row[t]]] for k, t in enumerate(ex["tips"])}
+    lhs = sum(float(w) * _np_prune(ex["tree"], b["P"], b["pi"], prof) for w, b in zip(ex["bprobs"], ex["bins"]))
     want = float(numpy.log(lhs).sum())
+    # size of the problem, measured by the harness on its own columns: distinct patterns below every internal node
+    def patterns(n):
+        if not n["children"]:
+            return [row[n["name"]]], 0
+        rows, best = [], 0
+        for c in n["children"]:
+            r, b = patterns(c)
+            rows += r
+            best = max(best, b, len(numpy.unique(codes[r], axis=1).T) if len(r) > 1 else 0)
+        return rows, best
+    _, npat = patterns(tree)
+    _, cnts = numpy.unique(codes, axis=1, return_counts=True)
     out["evaluations"] += 1
-    bump(out, "large_problem", f"{name}:{ntips}x{ncols}")
-    root = lf.get_param_value("root")
-    bump(out, "large_problem_patterns_log2", int(math.log2(max(len(c.uniq) for c in [root] + [root.get_edge(e) for e in ex["edges"]]))))
-    bad = numpy.flatnonzero(~numpy.isclose(fl, lhs, rtol=1e-9, atol=0))
+    bump(out, "large_problem", f"{fixed['target']}:{fixed['ntips']}x{fixed['ncols']}:bins={fixed['bins']}:ambig={'y' if fixed['ambig'] else 'n'}")
+    bump(out, "large_child_patterns_log2", int(math.log2(max(npat, 1))))
+    bump(out, "large_max_count_log2", int(math.log2(int(cnts.max()))))
+    bad = numpy.flatnonzero(~numpy.isclose(fl, lhs, rtol=1e-9, atol=0)) if len(fl) == len(lhs) else numpy.array([0])
     if len(bad) or not (abs(got - want) <= 1e-9 * abs(want)):
-        add_failure(out, "spec", "large alignment: lnL / per-column likelihoods differ from plain float64 pruning",
-                    inp, dict(lnL=want), dict(lnL=got, first_bad_column=int(bad[0]) if len(bad) else None, n_bad=int(len(bad))),
-                    sig="large:int-index-overflow-or-similar")
+        add_failure(out, "spec", "large alignment: lnL / per-column likelihoods differ from plain float64 pruning over all columns",
+                    inp, dict(lnL=want, columns=int(len(lhs)), max_child_patterns=int(npat), max_count=int(cnts.max())),
+                    dict(lnL=got, columns=int(len(fl)), first_bad_column=int(bad[0]) if len(bad) else None, n_bad=int(len(bad))),
+                    sig=f"large:{'patterns' if fixed['target'] != 'counts' else 'counts'}")
     else:
-        out["nontrivial"].add((name, ntips, ncols, "large"))
+        out["nontrivial"].add((name, fixed["ntips"], fixed["ncols"], fixed["np_seed"], "large"))
     # a subsample of columns against the exact Lean model
-    sub = sorted(rng.sample(range(ncols), 150))
+    srng = _random.Random(fixed["sub_seed"])
+    sub = sorted(srng.sample(range(fixed["ncols"]), 150))
     subspec = dict(spec, seqs={k: "".join(v[j] for j in sub) for k, v in seqs.items()})
     ex2 = U.extract(lf, subspec, profiles="oracle")
     (res,) = ctx.driver.batch([U.lean_request(ex2, [])])
+    if "error" in res:
+        add_failure(out, "corr", "driver error (large)", inp, "reply", res["error"], confirmed=False)
+        return
     lh = [unrat(x) for x in res["lh"]]
     for k, j in enumerate(sub):
         out["evaluations"] += 1
@@ -884,7 +1011,11 @@ def spec_check(ctx, budget):
         "own IUPAC tables, so ambiguity/gap resolution is checked too) on up to 4 unique columns per problem with <= 20000 "
         "labelings (codon/protein: 3-4 tip trees); lnL vs sum of log brute-force values when every unique column was "
         "brute-forced; sum over all m^k columns == 1 on 3-4 tip nucleotide (2-tip protein/dinucleotide in thorough) problems; "
-        "P == scipy expm(Q t); non-trivial = problems with >= 2 unique columns"
+        "P == scipy expm(Q t); multi-locus likelihood functions (2-4 loci, per-locus parameters) vs the sum over loci and all columns; "
+        "site-class HMM likelihood functions vs the sum over ALL bin paths (harness's own exact evaluation of the definition) and vs "
+        "the sites_independent=True value at bin_switch=1; size scaling: 10-12 taxa x 42k-90k random columns (> 2^15 and > 2^16 "
+        "patterns below one child) and 120k-200k columns with pattern counts > 2^16 vs plain vectorised float64 pruning over all "
+        "columns; non-trivial = problems with >= 2 unique columns"
     )
     rng = ctx.subrng(f"spec{budget}")
     U.BIG_BINS = ctx.thorough
@@ -923,9 +1054,13 @@ def spec_check(ctx, budget):
                         f"{type(e).__name__}: {e}", sig=f"build-raised:{spec['kind']}:{type(e).__name__}")
     _adversarial_expm(ctx, rng, out, 6 * budget)
     _scope_problems(ctx, rng, out, 8 * budget)
-    if ctx.thorough and budget <= 10:
-        for _ in range(2):
-            _large_problem(ctx, rng, out)
+    # several loci; hidden Markov chain over site classes (sites_independent=False)
+    S.spec_stream(ctx, out, ctx.subrng(f"sites-spec{budget}"), budget)
+    if budget in (1, 10):
+        # size scaling (not repeated in the wider search after a failure: the stream does not depend on the budget)
+        lrng = ctx.subrng("large")
+        for target in ([15, 16, "counts"] if not ctx.thorough else [15, 16, "counts", 15, 16, 15, 16, "counts"]):
+            _large_problem(ctx, lrng, out, target=target)
     if budget >= 8:
         for name in [prot[ctx.seed % len(prot)], U.DINUC]:
             spec = _all_columns_problem(rng, name, 2)
@@ -953,7 +1088,9 @@ def _recheck(ctx, inp):
     out = new_outcome()
     spec = {k: v for k, v in inp.items() if k not in ("column", "check", "edge", "bin", "pairs")}
     check = inp.get("check", "lh")
-    if check == "sum1":
+    if S.recheck(ctx, inp, out):
+        pass
+    elif check == "sum1":
         _check_sum_one(spec, None, out)
     elif check == "expm":
         lf = U.build_lf(spec, None)
@@ -974,7 +1111,8 @@ def _recheck(ctx, inp):
     elif check == "scope":
         _check_scope(ctx, spec, None, out)
     elif check == "large":
-        _large_problem(ctx, None, out, fixed={k: inp[k] for k in ("model", "ntips", "ncols", "tree", "mprobs", "np_seed", "new_type", "sub_seed")})
+        _large_problem(ctx, None, out, fixed={k: inp[k] for k in ("model", "target", "ntips", "ncols", "tree", "mprobs", "np_seed", "new_type",
+                                                                   "sub_seed", "bins", "model_kw", "ambig", "const_frac", "rules", "rules_seed")})
     elif check in ("indepQ", "omega"):
         lf = U.build_lf(spec, None)
         (_check_indep_codon(ctx, lf, spec, out) if check == "indepQ" else _check_omega_structure(lf, spec, out))
